@@ -42,5 +42,17 @@ Call(r, budget) ==
        ELSE /\ (r.ok = 0 => r.cls \in Reported)        \* never an internal panic
             /\ phase' = (IF r.er = 1 THEN "failed" ELSE "built")
 
+(* a call on the session object underneath (TokenParser; no panic boundary of its own): every call returns, with a  *)
+(* result or a reported error - never a panic -; a total-token stop is reported only when a total was configured     *)
+(* (r.mt = 1: the driver never configures one, so the token budget is "unlimited" and must stay so across           *)
+(* process_prompt / rollback / reset)                                                                                *)
+TCall(r, budget) ==
+    /\ r.ev = "TCall"
+    /\ r.ms <= budget
+    /\ r.st \in Stops
+    /\ (r.ok = 0 => r.cls \in Reported)
+    /\ (r.st = "MaxTokensTotal" => r.mt = 1)
+    /\ UNCHANGED phase
+
 End(r) == r.ev = "End" /\ UNCHANGED phase
 =============================================================================
